@@ -21,6 +21,96 @@ Theorem C07_sample_resave_fixed_point :
   end.
 Proof. exact sample_resave_fixed_point. Qed.
 
+(* ==== binary: the file is a function of the property MAPS (Proofs/BinTypeInfoFacts.v).  Under one spelling per logical property
+   per instance (true of every DOM either reader produces), type-consistent spellings, an alias-set iteration order that is a
+   permutation, and injective SharedString hashes, permuting the listing (hash iteration order) of every instance's properties
+   leaves encode_file unchanged, byte for byte, for every database and compression.  Without one spelling the bytes do depend
+   on the order: C07_file_depends_on_property_order_with_two_spellings (recorded finding rebuild-differs-two-spellings). *)
+From RbxVerif Require Import BinTypeInfoFacts.
+Open Scope N_scope.
+
+Theorem C07_prop_value_alias_order :
+  forall (p : enc_params) (canon : bytes) (pi : prop_info) (ord1 ord2 : list bytes) (i : inst),
+       Permutation.Permutation ord1 ord2 ->
+       one_spelling canon ord1 i -> prop_value p canon pi ord1 i = prop_value p canon pi ord2 i.
+Proof. exact prop_value_alias_order. Qed.
+
+Theorem C07_column_values_perm :
+  forall (p : enc_params) (canon : bytes) (pi pi' : prop_info) (ord ord' : list bytes)
+         (insts insts' : list inst),
+       Forall2 inst_perm insts insts' ->
+       Forall (fun i : inst => NoDup (List.map fst (i_props i))) insts ->
+       pi_equiv_perm pi pi' ->
+       Permutation.Permutation ord (pi_aliases pi) ->
+       Permutation.Permutation ord' (pi_aliases pi') ->
+       Forall (one_spelling canon (pi_aliases pi)) insts ->
+       List.map (prop_value p canon pi ord) insts = List.map (prop_value p canon pi' ord') insts'.
+Proof. exact column_values_perm. Qed.
+
+Theorem C07_fold_pstep_perm :
+  forall (d : db) (class : bytes) (cls : option cdesc) (l l' : list (bytes * value)),
+       Permutation.Permutation l l' ->
+       spellings_agree d class l ->
+       migrations_agree d class l ->
+       forall a b : pstate,
+       st_equiv a b ->
+       res_equiv st_equiv (fold_res (pstep d class cls) a l) (fold_res (pstep d class cls) b l').
+Proof. exact fold_pstep_perm. Qed.
+
+Theorem C07_encode_chunks_props_perm_dom :
+  forall (d : db) (p : enc_params) (dom dom' : list inst) (roots : list N) (e : encoded),
+       Forall2 inst_perm dom dom' ->
+       (forall i : inst, In i dom -> NoDup (List.map fst (i_props i))) ->
+       dom_agree d dom ->
+       dom_one_spelling d dom ->
+       (forall l : list bytes, Permutation.Permutation (ep_order p l) l) ->
+       hash_inj (ep_hash p) -> encode_chunks d p dom roots = Ok e -> encode_chunks d p dom' roots = Ok e.
+Proof. exact encode_chunks_props_perm_dom. Qed.
+
+Theorem C07_encode_file_props_perm :
+  forall (d : db) (p : enc_params) (cmp : compression) (dom dom' : list inst) 
+         (roots : list N) (b : bytes),
+       Forall2 inst_perm dom dom' ->
+       (forall i : inst, In i dom -> NoDup (List.map fst (i_props i))) ->
+       dom_agree d dom ->
+       dom_one_spelling d dom ->
+       (forall l : list bytes, Permutation.Permutation (ep_order p l) l) ->
+       hash_inj (ep_hash p) -> encode_file d p cmp dom roots = Ok b -> encode_file d p cmp dom' roots = Ok b.
+Proof. exact encode_file_props_perm. Qed.
+
+Theorem C07_encode_file_props_perm_iff :
+  forall (d : db) (p : enc_params) (cmp : compression) (dom dom' : list inst) 
+         (roots : list N) (b : bytes),
+       Forall2 inst_perm dom dom' ->
+       (forall i : inst, In i dom -> NoDup (List.map fst (i_props i))) ->
+       dom_agree d dom ->
+       dom_one_spelling d dom ->
+       (forall l : list bytes, Permutation.Permutation (ep_order p l) l) ->
+       hash_inj (ep_hash p) -> encode_file d p cmp dom roots = Ok b <-> encode_file d p cmp dom' roots = Ok b.
+Proof. exact encode_file_props_perm_iff. Qed.
+
+Theorem C07_prop_value_alias_order_refuted :
+  prop_value ep_part (bstr "Color") colour_pi [bstr "BrickColor"; bstr "Color3uint8"] two_spellings_part =
+       VColor3uint8 163 162 165 /\
+       prop_value ep_part (bstr "Color") colour_pi [bstr "Color3uint8"; bstr "BrickColor"] two_spellings_part =
+       VColor3uint8 1 2 3.
+Proof. exact prop_value_alias_order_refuted. Qed.
+
+Theorem C07_file_depends_on_property_order_with_two_spellings :
+  is_ok (enc_part [two_spellings_part] [1]) = true /\
+       is_ok (enc_part [two_spellings_part'] [1]) = true /\
+       enc_part [two_spellings_part] [1] <> enc_part [two_spellings_part'] [1] /\
+       roundtrip_colours [two_spellings_part] [1] = [(bstr "X", Some (VColor3uint8 163 162 165))] /\
+       roundtrip_colours [two_spellings_part'] [1] = [(bstr "X", Some (VColor3uint8 1 2 3))].
+Proof. exact file_depends_on_property_order_with_two_spellings. Qed.
+
+Theorem C07_mixed_dom_same_file :
+  exists b : bytes,
+         encode_file db_part ep_mixed None mixed_dom [1; 3] = Ok b /\
+         encode_file db_part ep_mixed None mixed_dom' [1; 3] = Ok b.
+Proof. exact mixed_dom_same_file. Qed.
+
+
 (* ==== XML: the document is a function of the logical content (Proofs/XmlDeterminism.v).  The serializer sorts an instance's
    properties by name, so any listing (hash iteration order) of the same property map gives the same document; referent numbers are
    assigned by order of first use, so any injective renaming of the Ref values that fixes the null Ref gives the same document;
